@@ -585,6 +585,8 @@ pub fn cmd_check(opts: &BTreeMap<String, String>) -> i32 {
         ("evaluations", J::u(agg.runs)),
         ("distinct_nontrivial", J::u(agg.nontrivial_sigs.len() as u64)),
         ("rule", J::s(info.rule)),
+        ("concurrent_leg_percent_of_runs", J::u(conc_share(&prop))),
+        ("fault_kinds_in_the_sequential_mix", J::s("injected fail-points (fail k), reader-table exhaustion (starve), no room (fsize: RLIMIT_FSIZE, real EFBIG; also on rebuild), kill adoption (crash k), forced remap (blocker), restarts (drop / close / copy / rebuild), removal or blocking of backup files, clock; which of them a batch draws is set by the property's weights (gen.rs) and counted under faults_fired")),
         ("samples", J::Arr(samples)),
         ("distinct_run_signatures", J::u(agg.all_sigs.len() as u64)),
         ("ops_executed", J::u(agg.ops)),
